@@ -33,15 +33,19 @@ type estEntry struct {
 	fields map[string]string // formula parameter -> field of the distribution object
 	free   []string          // parameters the estimator estimates (others are held fixed)
 	bounds []string          // estimator fields that cap the estimate (paths that hit a cap are not stationary points)
+	ctor   []string          // symbol names of the constructor's parameters by position (independent of the source names)
 }
 
 var estTable = []estEntry{
-	{T: "NormalEstimator", dist: "NormalDistribution", fields: map[string]string{"mu": "Mu", "sigma": "Sigma"}, free: []string{"mu", "sigma"}, bounds: []string{"sigmaMin"}},
-	{T: "ExponentialEstimator", dist: "ExponentialDistribution", fields: map[string]string{"lambda": "Lambda"}, free: []string{"lambda"}, bounds: []string{"lambdaMax"}},
-	{T: "PoissonEstimator", dist: "PoissonDistribution", fields: map[string]string{"lambda": "Lambda"}, free: []string{"lambda"}},
-	{T: "GeometricEstimator", dist: "GeometricDistribution", fields: map[string]string{"p": "p"}, free: []string{"p"}},
-	{T: "NegativeBinomialEstimator", dist: "NegativeBinomialDistribution", fields: map[string]string{"r": "R", "p": "P"}, free: []string{"p"}},
+	{T: "NormalEstimator", dist: "NormalDistribution", fields: map[string]string{"mu": "Mu", "sigma": "Sigma"}, free: []string{"mu", "sigma"}, bounds: []string{"sigmaMin"}, ctor: []string{"mu", "sigma", "sigmaMin"}},
+	{T: "ExponentialEstimator", dist: "ExponentialDistribution", fields: map[string]string{"lambda": "Lambda"}, free: []string{"lambda"}, bounds: []string{"lambdaMax"}, ctor: []string{"lambda", "lambdaMax"}},
+	{T: "PoissonEstimator", dist: "PoissonDistribution", fields: map[string]string{"lambda": "Lambda"}, free: []string{"lambda"}, ctor: []string{"lambda"}},
+	{T: "GeometricEstimator", dist: "GeometricDistribution", fields: map[string]string{"p": "p"}, free: []string{"p"}, ctor: []string{"p"}},
+	{T: "NegativeBinomialEstimator", dist: "NegativeBinomialDistribution", fields: map[string]string{"r": "R", "p": "P"}, free: []string{"p"}, ctor: []string{"r", "p"}},
 }
+
+// c16MethodSyms: positional symbol names for the parameters of the interpreted estimator methods.
+var c16MethodSyms = map[string][]string{"Initialize": {"p"}, "NewObservation": {"x", "gamma", "p"}}
 
 func checkC16(c *core.Ctx) error {
 	if err := c.Load(packages.LoadSyntax); err != nil {
@@ -137,7 +141,7 @@ func runOn(p *packages.Package, d *declIndex, T, name string, obj *vn.StructVal,
 		return nil, "method " + name + " not found"
 	}
 	cfg := vn.Config{Pkg: p, TypeName: "Real64", Spec: distSpec, InlineOps: inlineOps, Decl: d.find, ParamNames: true, MaxDepth: 6,
-		RecvStruct: obj, RecvFresh: true, UnrollConst: true}
+		RecvStruct: obj, RecvFresh: true, UnrollConst: true, ParamSyms: c16MethodSyms[name]}
 	paths, und := vn.Run(cfg, fd)
 	if und != nil {
 		return nil, name + " left the interpreter's idiom set: " + und.Msg
@@ -174,7 +178,7 @@ func checkEstimator(c *core.Ctx, p *packages.Package, d *declIndex, e estEntry) 
 		return
 	}
 	// constructor (parameters get the suffix 0: they are the starting values, not the estimate)
-	cfg := vn.Config{Pkg: p, TypeName: "Real64", Spec: distSpec, InlineOps: inlineOps, Decl: d.find, ParamNames: true, MaxDepth: 6, UnrollConst: true}
+	cfg := vn.Config{Pkg: p, TypeName: "Real64", Spec: distSpec, InlineOps: inlineOps, Decl: d.find, ParamNames: true, MaxDepth: 6, UnrollConst: true, ParamSyms: e.ctor}
 	paths, und := vn.Run(cfg, ctor)
 	if und != nil {
 		c.Unknown("C16.R1", cons, "constructor interpreted", und.Pos, "constructor left the interpreter's idiom set: "+und.Msg)
@@ -196,9 +200,15 @@ func checkEstimator(c *core.Ctx, p *packages.Package, d *declIndex, e estEntry) 
 	}
 	// rename the constructor's symbols (start values) so that they cannot be confused with the estimate
 	ren := map[*sym.Atom]*sym.Term{}
+	k := 0
 	for _, f := range ctor.Type.Params.List {
 		for _, n := range f.Names {
-			ren[sym.SymAtom(n.Name)] = sym.Sym(n.Name + "_start")
+			name := n.Name
+			if k < len(e.ctor) {
+				name = e.ctor[k]
+			}
+			ren[sym.SymAtom(name)] = sym.Sym(name + "_start")
+			k++
 		}
 	}
 	vn.SubstValue(obj, ren, nil)
@@ -594,7 +604,7 @@ func checkCategoricalEstimator(c *core.Ctx, p *packages.Package, d *declIndex) {
 	}
 	start := &vn.SliceVal{Len: sym.Int(3), Cells: map[string]*sym.Term{"0": sym.Sym("s_0"), "1": sym.Sym("s_1"), "2": sym.Sym("s_2")}}
 	cfg := vn.Config{Pkg: p, TypeName: "Real64", Spec: distSpec, InlineOps: inlineOps, Decl: d.find, ParamNames: true, MaxDepth: 6, UnrollConst: true, FiniteSyms: true,
-		ParamValues: map[string]vn.Value{"theta": start}}
+		ParamList: []vn.Value{start}}
 	paths, und := vn.Run(cfg, ctor)
 	if und != nil {
 		c.Unknown("C16.R1c", cons, "constructor interpreted", und.Pos, "constructor left the interpreter's idiom set: "+und.Msg)
@@ -614,13 +624,13 @@ func checkCategoricalEstimator(c *core.Ctx, p *packages.Package, d *declIndex) {
 		c.Unknown("C16.R1c", cons, "constructor has a success path", ctor.Pos(), "no success path")
 		return
 	}
-	run := func(name string, params map[string]vn.Value) string {
+	run := func(name string, params []vn.Value) string {
 		fd := findMethodDecl(p, "CategoricalEstimator", name)
 		if fd == nil {
 			return "method " + name + " not found"
 		}
 		cfg := vn.Config{Pkg: p, TypeName: "Real64", Spec: distSpec, InlineOps: inlineOps, Decl: d.find, ParamNames: true, MaxDepth: 6, UnrollConst: true, FiniteSyms: true,
-			RecvStruct: obj, ParamValues: params}
+			RecvStruct: obj, ParamList: params}
 		ps, und := vn.Run(cfg, fd)
 		if und != nil {
 			return name + " left the interpreter's idiom set: " + und.Msg
@@ -638,7 +648,7 @@ func checkCategoricalEstimator(c *core.Ctx, p *packages.Package, d *declIndex) {
 		return ""
 	}
 	pool := &vn.OpaqueVal{What: "pool"}
-	if msg := run("Initialize", map[string]vn.Value{"p": pool}); msg != "" {
+	if msg := run("Initialize", []vn.Value{pool}); msg != "" {
 		c.Unknown("C16.R1c", cons, "Initialize interpreted", ctor.Pos(), msg)
 		return
 	}
@@ -646,7 +656,7 @@ func checkCategoricalEstimator(c *core.Ctx, p *packages.Package, d *declIndex) {
 	for l, k := range cats {
 		x := &vn.Loc{Name: "x", Val: sym.Int(int64(k)), Consistent: true, Const: true}
 		g := &vn.Loc{Name: "gamma", Val: symf("g_%d", l), Consistent: true}
-		if msg := run("NewObservation", map[string]vn.Value{"x": x, "gamma": g, "p": pool}); msg != "" {
+		if msg := run("NewObservation", []vn.Value{x, g, pool}); msg != "" {
 			c.Unknown("C16.R1c", cons, "NewObservation interpreted", ctor.Pos(), msg)
 			return
 		}
